@@ -547,7 +547,12 @@ def _find_merge_loop(prog, f):
     for n in f.own_nodes():
         if isinstance(n, ast.For):
             for c in ast.walk(ast.Module(body=n.body, type_ignores=[])):
-                if isinstance(c, ast.Call) and prog.resolve_in(c.func, f) == RANGE:
+                # a Range built from the end points of other ranges (the parser in _divide builds them from text)
+                if (
+                    isinstance(c, ast.Call)
+                    and prog.resolve_in(c.func, f) == RANGE
+                    and any(isinstance(a, ast.Attribute) and a.attr in ('start', 'stop') for a in ast.walk(c))
+                ):
                     out.append(n)
                     break
     return out
@@ -583,6 +588,8 @@ class _Sorted(Flow):
 
     def on_call(self, call, st):
         f = call.func
+        if call is self.loop:  # the helper holding the merge loop is entered here
+            self.at_loop.add(st)
         if isinstance(f, ast.Attribute) and isinstance(f.value, ast.Name) and f.value.id == self.name:
             if f.attr == 'sort':
                 return (self._kw_ok(call),)
@@ -612,14 +619,49 @@ class _Sorted(Flow):
         return (st,)
 
 
-def _flows_into(f, src_names, dst):
-    """may-flow closure over plain assignments and extend/append/update: does any of src_names reach dst?"""
+def _reach(prog, f, depth=2):
+    """f and the repository functions of dawgie.db it calls, to the given depth: [(func, call node, calling func)]"""
+    out, seen = [(f, None, None)], {f.qname}
+    level = [f]
+    for _ in range(depth):
+        nxt = []
+        for g in level:
+            for c in g.calls():
+                if isinstance(c.func, ast.Call):
+                    continue
+                h = prog.func_of(prog.resolve_in(c.func, g))
+                if h is None or h.qname in seen or not h.module.name.startswith('dawgie.db'):
+                    continue
+                if h.cls is not None and h.name == '__init__':
+                    continue
+                seen.add(h.qname)
+                out.append((h, c, g))
+                nxt.append(h)
+        level = nxt
+    return out
+
+
+def _flows_into(prog, f, src_names, dst):
+    """may-flow closure over assignments, growth calls, loop targets and returns: does each of src_names reach dst?
+
+    Pseudo names: '<return>' (what f returns) and '<call:qname>' (the value of a call to a repository function).
+    """
+
+    def names(e):
+        out = set(names_in(e))
+        for c in ast.walk(e):
+            if isinstance(c, ast.Call) and not isinstance(c.func, ast.Call):
+                h = prog.func_of(prog.resolve_in(c.func, f))
+                if h is not None:
+                    out.add(f'<call:{h.qname}>')
+        return out
+
     dep = {}
     for n in f.own_nodes():
-        if isinstance(n, ast.Assign):
-            for t in n.targets:
+        if isinstance(n, (ast.Assign, ast.AnnAssign, ast.AugAssign)) and n.value is not None:
+            for t in n.targets if isinstance(n, ast.Assign) else [n.target]:
                 for tn in names_in(t):
-                    dep.setdefault(tn, set()).update(names_in(n.value))
+                    dep.setdefault(tn, set()).update(names(n.value))
         elif (
             isinstance(n, ast.Call)
             and isinstance(n.func, ast.Attribute)
@@ -627,10 +669,12 @@ def _flows_into(f, src_names, dst):
             and n.func.attr in ('append', 'extend', 'update', 'add', 'insert')
         ):
             for a in n.args:
-                dep.setdefault(n.func.value.id, set()).update(names_in(a))
+                dep.setdefault(n.func.value.id, set()).update(names(a))
         elif isinstance(n, (ast.For, ast.comprehension)):
             for tn in names_in(n.target):
-                dep.setdefault(tn, set()).update(names_in(n.iter))
+                dep.setdefault(tn, set()).update(names(n.iter))
+        elif isinstance(n, ast.Return) and n.value is not None:
+            dep.setdefault('<return>', set()).update(names(n.value))
     seen, todo = set(), [dst]
     while todo:
         x = todo.pop()
@@ -694,11 +738,17 @@ def _rule5(ctx, rep):
             f'{cases} end-point assignments: member in Range  <=>  start <= member and (stop is None or member < stop)',
             f'Range.__contains__ is not the half-open interval the SQL backend and the merge assume: {bad}',
         )
-        # ---- (b) merge step
-        loops = _find_merge_loop(prog, f)
-        if len(loops) != 1:
-            raise AnalysisError(f'_scrub: expected exactly one loop building Range values (the merge), found {len(loops)}')
-        loop = loops[0]
+        # ---- (b) merge step (the loop may live in _scrub or in a helper it calls)
+        scope = _reach(prog, f)
+        for g, _c, _p in scope:
+            rep.analysed(g)
+        found = [(g, call, parent, lp) for g, call, parent in scope for lp in _find_merge_loop(prog, g)]
+        if len(found) != 1:
+            raise AnalysisError(
+                f'_scrub: expected exactly one loop building Range values (the merge) in _scrub or its helpers, found {len(found)}'
+            )
+        g, gcall, gparent, loop = found[0]
+        loops = [loop]
         r.instance()
         key = f'{f.qname}:merge-step'
         acc = set()
@@ -725,20 +775,23 @@ def _rule5(ctx, rep):
         if M and src:
             inits = [
                 n.value
-                for n in f.own_nodes()
-                if isinstance(n, ast.Assign) and any(isinstance(t, ast.Name) and t.id == M for t in n.targets)
+                for n in g.own_nodes()
+                if isinstance(n, (ast.Assign, ast.AnnAssign))
+                and n.value is not None
+                and any(isinstance(t, ast.Name) and t.id == M for t in (n.targets if isinstance(n, ast.Assign) else [n.target]))
             ]
             inits = [v for v in inits if not (isinstance(v, ast.Name))]
             init_ok = len(inits) == 1 and norm(inits[0]) == f'[{src}[0]]'
+        M_out = None  # name under which the merged list is visible in _scrub
         if not (isinstance(loop.target, ast.Name) and M and src and init_ok):
             r.fail(
                 key,
-                where(f, loop),
+                where(g, loop),
                 'merge loop is not of the understood shape (accumulator initialised with [S[0]], loop over S[1:], '
                 'accumulator only appended to or its last element replaced); union preservation not shown',
             )
         else:
-            mi = _Mini(prog, f)
+            mi = _Mini(prog, g)
             rv = loop.target.id
             c = _max_literal(loop.body)
             D = 4 * (c + 1)
@@ -780,54 +833,78 @@ def _rule5(ctx, rep):
             r.check(
                 bad is None,
                 key,
-                where(f, loop),
+                where(g, loop),
                 f'{cases} (start, stop|open) assignments with merged[-1].start <= r.start: union and order invariant preserved',
                 f'one merge step of _scrub changes the denoted set: {bad}',
             )
-            # ---- (c) sorted precondition reaches the loop on every path
+            # ---- (c) sorted precondition reaches the loop on every path (sorted in the helper or before its call)
             r.instance()
+            entry = False
+            if g is not f and src in g.params():
+                ps = g.params()
+                if ps and ps[0] in ('self', 'cls') and not g.is_staticmethod():
+                    ps = ps[1:]
+                i = ps.index(src) if src in ps else None
+                a = arg(gcall, i, src) if i is not None else None
+                if isinstance(a, ast.Name):
+                    up = _Sorted(a.id, gcall)
+                    up.run(gparent.node, False)
+                    entry = up.at_loop == {True}
             fl = _Sorted(src, loop)
-            fl.run(f.node, False)
+            fl.run(g.node, entry)
             r.check(
                 fl.at_loop == {True},
                 f'{f.qname}:sorted-by-start',
-                where(f, loop),
+                where(g, loop),
                 f'{src} is sorted ascending by .start on every path into the merge loop',
                 f'the merge loop can be entered with {src} not sorted by start (states {sorted(fl.at_loop)}): '
                 'the step only looks at the last merged range, so overlaps with earlier ones are missed',
             )
-        # ---- (d) index absorption
+            if g is f:
+                M_out = M
+            elif all(_flows_into(prog, g, [M], '<return>').values()):
+                M_out = f'<call:{g.qname}>'
+        # ---- (d) index absorption (loop or comprehension, in _scrub or a helper)
         r.instance()
         key = f'{f.qname}:index-absorption'
         cand = []
-        for n in f.own_nodes():
-            if isinstance(n, ast.For) and n not in loops and isinstance(n.target, ast.Name):
+        for g2, _c2, _p2 in scope:
+            for n in g2.own_nodes():
+                tests = None
+                if isinstance(n, ast.For) and n not in loops and isinstance(n.target, ast.Name):
+                    region = ast.Module(body=n.body, type_ignores=[])
+                elif isinstance(n, (ast.ListComp, ast.SetComp, ast.GeneratorExp)) and len(n.generators) == 1 and n.generators[0].ifs:
+                    region = ast.Module(body=[ast.Expr(value=c_) for c_ in n.generators[0].ifs], type_ignores=[])
+                else:
+                    continue
                 tests = [
-                    c
-                    for c in ast.walk(ast.Module(body=n.body, type_ignores=[]))
-                    if isinstance(c, ast.Call) and isinstance(c.func, ast.Name) and c.func.id in ('any', 'all')
+                    c_
+                    for c_ in ast.walk(region)
+                    if isinstance(c_, ast.Call) and isinstance(c_.func, ast.Name) and c_.func.id in ('any', 'all')
+                    and c_.args and isinstance(c_.args[0], (ast.GeneratorExp, ast.ListComp))
                 ]
                 if tests:
-                    cand.append((n, tests))
+                    cand.append((g2, n, tests))
+        K_out = None
         if len(cand) != 1:
-            r.fail(key, where(f), f'expected one loop over the individual run ids testing them against the ranges, found {len(cand)}; not understood')
+            r.fail(key, where(f), f'expected one loop/comprehension over the individual run ids testing them against the ranges, found {len(cand)}; not understood')
         else:
-            lp, tests = cand[0]
-            g = tests[0].args[0] if tests[0].args else None
-            keep = {
-                n.func.value.id
-                for n in ast.walk(ast.Module(body=lp.body, type_ignores=[]))
-                if isinstance(n, ast.Call) and isinstance(n.func, ast.Attribute) and n.func.attr == 'append' and isinstance(n.func.value, ast.Name)
-            }
-            if not (isinstance(g, (ast.GeneratorExp, ast.ListComp)) and isinstance(g.generators[0].iter, ast.Name) and len(keep) == 1):
-                r.fail(key, where(f, lp), 'absorption test is not any/all over a generator on the range list with one kept-list; not understood')
-            else:
-                RL = g.generators[0].iter.id
-                K = keep.pop()
+            g2, lp, tests = cand[0]
+            gq = tests[0].args[0]
+            mi = _Mini(prog, g2)
+            shape_ok = isinstance(gq.generators[0].iter, ast.Name)
+            RL = gq.generators[0].iter.id if shape_ok else None
+            K = None
+            if isinstance(lp, ast.For):
+                keep = {
+                    n.func.value.id
+                    for n in ast.walk(ast.Module(body=lp.body, type_ignores=[]))
+                    if isinstance(n, ast.Call) and isinstance(n.func, ast.Attribute) and n.func.attr in ('append', 'add') and isinstance(n.func.value, ast.Name)
+                }
+                shape_ok = shape_ok and len(keep) == 1
+                K = keep.pop() if len(keep) == 1 else None
                 iv = lp.target.id
-                mi = _Mini(prog, f)
-                c = _max_literal(lp.body)
-                cases, bad = 0, None
+                body_nodes = lp.body
 
                 def run(i, rl):
                     env = {iv: i, RL: list(rl), K: []}
@@ -836,6 +913,30 @@ def _rule5(ctx, rep):
                         raise _NotUnderstood('break/return inside the absorption loop')
                     return env[K]
 
+            else:
+                gen = lp.generators[0]
+                shape_ok = shape_ok and isinstance(gen.target, ast.Name) and isinstance(lp.elt, ast.Name) and lp.elt.id == gen.target.id
+                iv = gen.target.id if isinstance(gen.target, ast.Name) else None
+                body_nodes = list(gen.ifs)
+                # the kept list is whatever the statement holding the comprehension binds
+                for st_ in g2.own_nodes():
+                    if isinstance(st_, (ast.Assign, ast.AnnAssign)) and st_.value is not None and any(x is lp for x in ast.walk(st_.value)):
+                        tg = st_.targets if isinstance(st_, ast.Assign) else [st_.target]
+                        if len(tg) == 1 and isinstance(tg[0], ast.Name):
+                            K = tg[0].id
+                    if isinstance(st_, ast.Return) and st_.value is not None and any(x is lp for x in ast.walk(st_.value)):
+                        K = '<return>'
+                shape_ok = shape_ok and K is not None
+
+                def run(i, rl):
+                    env = {iv: i, RL: list(rl)}
+                    return [i] if all(mi.truth(mi.expr(c_, env)) for c_ in gen.ifs) else []
+
+            if not shape_ok:
+                r.fail(key, where(g2, lp), 'absorption test is not any/all over a generator on the range list with one kept-list; not understood')
+            else:
+                c = _max_literal(body_nodes)
+                cases, bad = 0, None
                 try:
                     D = 3 * (c + 1)
                     for s_, t_, i in itertools.product(range(D), list(range(D)) + [None], range(-1, D)):
@@ -847,9 +948,9 @@ def _rule5(ctx, rep):
                             break
                     if bad is None:
                         E = list(range(4)) + [None]
-                        for a, b, c2, d, i in itertools.product(range(4), E, range(4), E, range(4)):
+                        for a_, b_, c2, d, i in itertools.product(range(4), E, range(4), E, range(4)):
                             cases += 1
-                            rl = [_R(a, b), _R(c2, d)]
+                            rl = [_R(a_, b_), _R(c2, d)]
                             kept = run(i, rl)
                             want = [] if any(spec_contains(x, i) for x in rl) else [i]
                             if kept != want:
@@ -864,33 +965,39 @@ def _rule5(ctx, rep):
                 r.check(
                     bad is None,
                     key,
-                    where(f, lp),
+                    where(g2, lp),
                     f'{cases} assignments: an individual run id is dropped iff one of the ranges contains it',
                     f'the index-absorption test of _scrub does not coincide with range membership: {bad}',
                 )
-                # ---- (e) both the merged ranges and the kept indices reach the runids of the returned Params
-                r.instance()
-                pc = [
-                    c_
-                    for c_ in f.calls()
-                    if prog.resolve_in(c_.func, f) == PARAMS
-                ]
-                dst = None
-                if len(pc) == 1:
-                    a0 = arg(pc[0], 0, 'runids')
-                    if isinstance(a0, ast.Name):
-                        dst = a0.id
-                if dst is None or M is None:
-                    r.fail(f'{f.qname}:output', where(f), '_scrub does not build exactly one Params(<name>, ...); output composition not understood')
-                else:
-                    fl_ = _flows_into(f, [M, K], dst)
-                    r.check(
-                        all(fl_.values()),
-                        f'{f.qname}:output',
-                        where(f, pc[0]),
-                        f'merged ranges ({M}) and kept run ids ({K}) both flow into Params.runids ({dst})',
-                        f'the runids of the scrubbed Params do not receive {[k for k, v in fl_.items() if not v]}',
-                    )
+                if g2 is f:
+                    K_out = K
+                elif K == '<return>' or all(_flows_into(prog, g2, [K], '<return>').values()):
+                    K_out = f'<call:{g2.qname}>'
+        # ---- (e) both the merged ranges and the kept indices reach the runids of the returned Params
+        r.instance()
+        pc = [c_ for c_ in f.calls() if prog.resolve_in(c_.func, f) == PARAMS]
+        dst = None
+        if len(pc) == 1:
+            a0 = arg(pc[0], 0, 'runids')
+            if isinstance(a0, ast.Name):
+                dst = a0.id
+        if dst is None:
+            r.fail(f'{f.qname}:output', where(f), '_scrub does not build exactly one Params(<name>, ...); output composition not understood')
+        elif M_out is None or K_out is None:
+            r.fail(
+                f'{f.qname}:output',
+                where(f, pc[0]),
+                'the merged ranges or the kept run ids could not be located (or are not returned by their helper); output composition not shown',
+            )
+        else:
+            fl_ = _flows_into(prog, f, [M_out, K_out], dst)
+            r.check(
+                all(fl_.values()),
+                f'{f.qname}:output',
+                where(f, pc[0]),
+                f'merged ranges ({M_out}) and kept run ids ({K_out}) both flow into Params.runids ({dst})',
+                f'the runids of the scrubbed Params do not receive {[k for k, v in fl_.items() if not v]}',
+            )
         r.note('not claimed: the textual parsing in _divide (split/strip/int) - values are strings there, outside the order abstraction')
 
 
@@ -1383,24 +1490,41 @@ def _rule4(ctx, rep):
                 and n.value is not None
                 and any(isinstance(t, ast.Name) and t.id == rn for t in (n.targets if isinstance(n, ast.Assign) else [n.target]))
             ]
-            if not inits or not all(norm(v) == 'set()' for v in inits):
-                bad.append(f'{rn} is not initialised as an empty set (duplicates per value would survive)')
+
+            def cut_ok(e):
+                if isinstance(e, ast.Call) and call_name(e) == 'tuple' and len(e.args) == 1:
+                    e = e.args[0]
+                if isinstance(e, ast.Subscript) and isinstance(e.slice, ast.Slice) and e.slice.lower is None and e.slice.step is None:
+                    u = e.slice.upper
+                    if isinstance(u, ast.Constant):
+                        return u.value == want_len
+                    if isinstance(u, ast.Name) and u.id == 'keylen':
+                        return default == want_len
+                return False
+
+            # accepted: the empty set (filled by add) or a set comprehension / set(generator) of cut keys
+            for v in inits:
+                if isinstance(v, ast.Call) and call_name(v) == 'set' and len(v.args) == 1 and isinstance(v.args[0], (ast.GeneratorExp, ast.ListComp)):
+                    v = v.args[0]
+                if norm(v) == 'set()':
+                    continue
+                if isinstance(v, (ast.SetComp, ast.GeneratorExp, ast.ListComp)) and (isinstance(v, ast.SetComp) or True):
+                    if not cut_ok(v.elt):
+                        bad.append(f'{norm(v.elt)} does not cut the key to its first {want_len} components (runid..state vector)')
+                    if isinstance(v, ast.ListComp) and v is not None and not any(
+                        isinstance(c, ast.Call) and call_name(c) == 'set' and v in c.args for c in pk.own_nodes()
+                    ):
+                        bad.append(f'{rn} is a list: duplicates per value would survive')
+                    continue
+                bad.append(f'{rn} is not initialised as an empty set or a set of cut keys (duplicates per value would survive)')
+            if not inits:
+                bad.append(f'{rn} is never initialised')
             for n in pk.own_nodes():
                 if isinstance(n, ast.Call) and isinstance(n.func, ast.Attribute) and isinstance(n.func.value, ast.Name) and n.func.value.id == rn:
                     if n.func.attr != 'add' or len(n.args) != 1:
                         bad.append(f'{norm(n)}: only {rn}.add(<key>[:n]) is understood')
                         continue
-                    e = n.args[0]
-                    if isinstance(e, ast.Call) and call_name(e) == 'tuple' and len(e.args) == 1:
-                        e = e.args[0]
-                    ok = False
-                    if isinstance(e, ast.Subscript) and isinstance(e.slice, ast.Slice) and e.slice.lower is None and e.slice.step is None:
-                        u = e.slice.upper
-                        if isinstance(u, ast.Constant):
-                            ok = u.value == want_len
-                        elif isinstance(u, ast.Name) and u.id == 'keylen':
-                            ok = default == want_len
-                    if not ok:
+                    if not cut_ok(n.args[0]):
                         bad.append(f'{norm(n)} does not cut the key to its first {want_len} components (runid..state vector)')
         for c in f.calls():
             if prog.func_of(prog.resolve_in(c.func, f)) is pk:
@@ -1450,6 +1574,16 @@ def _rule4(ctx, rep):
             else:
                 page_nodes = {id(n) for n, _t, _v in fl.iters}
                 for n in f.own_nodes():
+                    if isinstance(n, (ast.Assign, ast.AnnAssign)) and n.value is not None:
+                        tg = n.targets if isinstance(n, ast.Assign) else [n.target]
+                        if any(isinstance(t, ast.Name) and t.id == items.id for t in tg):
+                            v = n.value
+                            if isinstance(v, ast.Call) and call_name(v) == 'list' and len(v.args) == 1:
+                                v = v.args[0]
+                            empty = isinstance(v, ast.List) and not v.elts or norm(v) == 'list()'
+                            paged = isinstance(v, (ast.ListComp, ast.GeneratorExp)) and id(v) in page_nodes
+                            if not (empty or paged):
+                                bad.append(f'{norm(n)[:60]}: items is neither an empty list nor a comprehension over the page')
                     if isinstance(n, ast.Call) and isinstance(n.func, ast.Attribute) and isinstance(n.func.value, ast.Name) and n.func.value.id == items.id:
                         if n.func.attr == 'append':
                             inside = any(
@@ -1465,26 +1599,59 @@ def _rule4(ctx, rep):
                     ):
                         bad.append(f'{norm(n)[:60]} reorders the page')
             r.check(not bad, f'{f.qname}:items-order', where(f, call), 'items are appended in page order and never reordered', '; '.join(bad))
-        # ---- (e) every key component is decoded with the index of its own table
+        # ---- (e) every key component is decoded with the index of its own table (in _find or a helper it calls)
         dec = []
-        for n in f.own_nodes():
-            if (
-                isinstance(n, ast.Subscript)
-                and isinstance(n.value, ast.Attribute)
-                and isinstance(n.value.value, ast.Attribute)
-                and n.value.value.attr == 'indices'
-                and isinstance(n.slice, ast.Subscript)
-                and isinstance(n.slice.slice, ast.Constant)
-            ):
-                dec.append((n, n.value.attr, n.slice.slice.value))
-        for n, tabname, i in sorted(dec, key=lambda t: t[2]):
-            r.instance()
+        for g, _c, _p in _reach(prog, f):
+            if g.module is not f.module:
+                continue
+            single = {}
+            unpack = {}
+            for n in g.own_nodes():
+                if isinstance(n, ast.Assign) and len(n.targets) == 1:
+                    t = n.targets[0]
+                    if isinstance(t, ast.Name):
+                        single.setdefault(t.id, []).append(n.value)
+                    elif isinstance(t, ast.Tuple) and all(isinstance(e, ast.Name) for e in t.elts):
+                        v = n.value
+                        if isinstance(v, ast.Subscript) and isinstance(v.slice, ast.Slice) and v.slice.lower is None:
+                            v = v.value  # a, b, c, d, e = key[:5]
+                        if isinstance(v, ast.Name):
+                            for j, e in enumerate(t.elts):
+                                unpack.setdefault(e.id, []).append(j)
+
+            def deref(e):
+                if isinstance(e, ast.Name) and len(single.get(e.id, ())) == 1:
+                    return single[e.id][0]
+                return e
+
+            def position(e):
+                if isinstance(e, ast.Name) and len(unpack.get(e.id, ())) == 1 and e.id not in single:
+                    return unpack[e.id][0]
+                e = deref(e)
+                if isinstance(e, ast.Subscript) and isinstance(e.slice, ast.Constant) and type(e.slice.value) is int and isinstance(e.value, ast.Name):
+                    return e.slice.value
+                return None
+
+            for n in g.own_nodes():
+                if isinstance(n, ast.Subscript) and isinstance(n.value, ast.Attribute) and not isinstance(n.slice, ast.Slice):
+                    base = deref(n.value.value)
+                    if isinstance(base, ast.Attribute) and base.attr == 'indices':
+                        i = position(n.slice)
+                        dec.append((g, n, n.value.attr, i))
+        seen_tabs = set()
+        for g, n, tabname, i in sorted(dec, key=lambda t: (t[2], t[1].lineno)):
+            if tabname not in seen_tabs:
+                r.instance()
+                seen_tabs.add(tabname)
+            if i is None:
+                r.fail(f'{f.qname}:decode:{tabname}', where(g, n), f'{norm(n)}: the key component used as index could not be determined; not understood')
+                continue
             r.check(
-                bool(kt) and type(i) is int and 0 <= i < len(kt) and kt[i] == tabname,
+                bool(kt) and 0 <= i < len(kt) and kt[i] == tabname,
                 f'{f.qname}:decode:{tabname}',
-                where(f, n),
+                where(g, n),
                 f'key component {i} is an id of table {tabname} and is decoded with indices.{tabname}',
-                f'{norm(n)} decodes key component {i} (an id of table {kt[i] if kt and type(i) is int and 0 <= i < len(kt) else "?"}) with the index of table {tabname}',
+                f'{norm(n)} decodes key component {i} (an id of table {kt[i] if kt and 0 <= i < len(kt) else "?"}) with the index of table {tabname}',
             )
         # ---- (f) post: DISTINCT ON = ORDER BY = count(DISTINCT) columns, run id first, total from the count
         g = prog.func(P_IMPL + '._find')
@@ -1580,6 +1747,7 @@ class _UCtx:
         self.depth = 0
         self.collected = {}  # (func qname, name) -> node where run-id elements were put into a local collection
         self.done = set()  # (callee, argument types) already analysed
+        self.site_states = {}  # id(for / comprehension node) -> type environments on entry
         self.inlined = set()
 
 
@@ -1945,6 +2113,7 @@ class _Union(Flow):
         return COL(t[1], t[2] - 1, None) if t[2] > 1 else EL(t[1])
 
     def on_for(self, node, st):
+        self.uc.site_states.setdefault(id(node), set()).add(st)
         t = self.ty(node.iter, st)
         if t is not None and t[0] == 'col' and t[2] == 1 and isinstance(node.target, ast.Name):
             self.consume_loop(node, node.target.id, t)
@@ -1953,6 +2122,7 @@ class _Union(Flow):
     def eval(self, e, states):
         if isinstance(e, (ast.ListComp, ast.SetComp, ast.GeneratorExp)) and states:
             for st in states:
+                self.uc.site_states.setdefault(id(e), set()).add(st)
                 self.comp(e, st, record=True)
                 inner = {st}
                 for g in e.generators:
@@ -2167,6 +2337,360 @@ def runids_branch(h):
     return None
 
 
+# ---- the match decision of a key-filtering backend is the union: id in ids  or  id in some range
+
+
+def _returned_collections(fn):
+    """names whose elements are what fn returns: in a return value, possibly through sorted/list/set/tuple or an alias"""
+    def base_names(e):
+        if isinstance(e, ast.Name):
+            return {e.id}
+        if isinstance(e, ast.Call) and isinstance(e.func, ast.Name) and e.func.id in _PASS_THROUGH and e.args:
+            return base_names(e.args[0])
+        if isinstance(e, (ast.Tuple, ast.List)):
+            return set().union(*[base_names(x) for x in e.elts]) if e.elts else set()
+        if isinstance(e, ast.IfExp):
+            return base_names(e.body) | base_names(e.orelse)
+        return set()
+
+    out = set()
+    for n in fn.own_nodes():
+        if isinstance(n, ast.Return) and n.value is not None:
+            out |= base_names(n.value)
+    changed = True
+    while changed:
+        changed = False
+        for n in fn.own_nodes():
+            if isinstance(n, (ast.Assign, ast.AnnAssign)) and n.value is not None:
+                tg = n.targets if isinstance(n, ast.Assign) else [n.target]
+                if any(isinstance(t, ast.Name) and t.id in out for t in tg):
+                    new = base_names(n.value) - out
+                    if new:
+                        out |= new
+                        changed = True
+    return out
+
+
+def _match_sites(prog, fn):
+    """loops / comprehensions of fn that select keys: they put (a part of) their loop variable into what fn returns
+
+    -> [(node, condition-and-body statements, accept predicate on a call)]
+    """
+    out = []
+    for n in fn.own_nodes():
+        if isinstance(n, ast.For):
+            tnames = names_in(n.target)
+            grows = [
+                c
+                for c in ast.walk(ast.Module(body=n.body, type_ignores=[]))
+                if isinstance(c, ast.Call)
+                and isinstance(c.func, ast.Attribute)
+                and c.func.attr in _GROW_ONE + _GROW_MANY
+                and isinstance(c.func.value, ast.Name)
+                and any(names_in(a) & tnames for a in c.args)
+            ]
+            returned = _returned_collections(fn)
+            grows = [c for c in grows if c.func.value.id in returned]
+            if grows:
+                ids = {id(c) for c in grows}
+                out.append((n, n.body, lambda c, ids=ids: id(c) in ids))
+        elif isinstance(n, (ast.ListComp, ast.SetComp, ast.GeneratorExp)) and len(n.generators) == 1:
+            g = n.generators[0]
+            if not (names_in(n.elt) & names_in(g.target)):
+                continue
+            if any(
+                isinstance(c, ast.Call) and isinstance(c.func, ast.Name) and c.func.id in ('any', 'all', 'sum', 'max', 'min', 'len') and n in c.args
+                for c in fn.own_nodes()
+            ):
+                continue  # a quantifier over the collection, not a selection of keys
+            # the comprehension value must reach the return value
+            holder = None
+            for st_ in fn.own_nodes():
+                if isinstance(st_, ast.Return) and st_.value is not None and any(x is n for x in ast.walk(st_.value)):
+                    holder = '<return>'
+                elif isinstance(st_, (ast.Assign, ast.AnnAssign)) and st_.value is not None and any(x is n for x in ast.walk(st_.value)):
+                    tg = st_.targets if isinstance(st_, ast.Assign) else [st_.target]
+                    if len(tg) == 1 and isinstance(tg[0], ast.Name):
+                        holder = tg[0].id
+            if holder is None or not (holder == '<return>' or holder in _returned_collections(fn)):
+                continue
+            mark = ast.Call(func=ast.Name(id='<accept>', ctx=ast.Load()), args=[], keywords=[])
+            body = [ast.Expr(value=mark)]
+            if g.ifs:
+                test = g.ifs[0] if len(g.ifs) == 1 else ast.BoolOp(op=ast.And(), values=list(g.ifs))
+                body = [ast.If(test=test, body=body, orelse=[])]
+            for x in body:
+                ast.fix_missing_locations(ast.copy_location(x, n))
+            out.append((n, body, lambda c, mark=mark: c is mark))
+    return out
+
+
+class _Match(Flow):
+    """is the key accepted?  run-id atoms are fixed by an oracle (ids given, ranges given, id in ids, id in a range);
+    every condition that does not involve run ids is left open (both branches): the other constraints are assumed to match.
+
+    state = frozenset of (name, type | ('bool', v))
+    """
+
+    def __init__(self, uc, func, oracle, accept, depth=0):
+        super().__init__()
+        self.u = _Union(uc, func)
+        self.uc, self.prog, self.f = uc, uc.prog, func
+        self.ig, self.rg, self.in_i, self.in_r = oracle
+        self.oracle = oracle
+        self.accept = accept
+        self.accepted = False
+        self.unknown = []
+        self.depth = depth
+
+    def given(self, t):
+        if t is None or t[0] != 'col':
+            return None
+        if t[1] == {I_}:
+            return self.ig
+        if t[1] == {R_}:
+            return self.rg
+        if not t[1]:
+            return False
+        self.unknown.append('a collection mixing ids and ranges')
+        return None
+
+    @staticmethod
+    def k_not(v):
+        return None if v is None else not v
+
+    def tv(self, e, st):
+        """three-valued value of a condition"""
+        if isinstance(e, ast.Constant):
+            return bool(e.value)
+        if isinstance(e, ast.UnaryOp) and isinstance(e.op, ast.Not):
+            return self.k_not(self.tv(e.operand, st))
+        if isinstance(e, ast.BoolOp):
+            vals = [self.tv(v, st) for v in e.values]
+            if isinstance(e.op, ast.And):
+                return False if False in vals else (None if None in vals else True)
+            return True if True in vals else (None if None in vals else False)
+        if isinstance(e, ast.IfExp):
+            t = self.tv(e.test, st)
+            if t is None:
+                a, b = self.tv(e.body, st), self.tv(e.orelse, st)
+                return a if a == b else None
+            return self.tv(e.body if t else e.orelse, st)
+        if isinstance(e, ast.Name):
+            v = _Union.get(st, e.id)
+            if v is not None and v[0] == 'bool':
+                return v[1]
+            return self.given(v)
+        if isinstance(e, ast.Compare) and len(e.ops) == 1:
+            op, right = e.ops[0], e.comparators[0]
+            if isinstance(op, (ast.In, ast.NotIn)):
+                t = self.u.ty(right, st)
+                v = None
+                if t is not None and t[0] == 'col' and t[2] == 1 and t[1] == {I_}:
+                    v = self.in_i
+                elif t is not None and t[0] == 'col' and t[2] == 1 and not t[1]:
+                    v = False
+                elif t is not None and t[0] in ('col', 'el') and R_ in t[1]:
+                    self.unknown.append(norm(e))
+                return v if isinstance(op, ast.In) else self.k_not(v)
+            # len(C) > 0, len(C) != 0, 0 < len(C), len(C) == 0
+            for a, b, flip in ((e.left, right, False), (right, e.left, True)):
+                if isinstance(a, ast.Call) and call_name(a) == 'len' and len(a.args) == 1 and isinstance(b, ast.Constant) and b.value == 0:
+                    g = self.given(self.u.ty(a.args[0], st))
+                    name = type(op).__name__
+                    if flip:
+                        name = {'Lt': 'Gt', 'Gt': 'Lt', 'LtE': 'GtE', 'GtE': 'LtE'}.get(name, name)
+                    if name in ('Gt', 'NotEq'):
+                        return g
+                    if name in ('Eq', 'LtE'):
+                        return self.k_not(g)
+            return None
+        if isinstance(e, ast.Call):
+            n = call_name(e)
+            if isinstance(e.func, ast.Name) and n in ('bool', 'len') and len(e.args) == 1:
+                return self.given(self.u.ty(e.args[0], st)) if n == 'len' or True else None
+            if isinstance(e.func, ast.Name) and n in ('any', 'all') and len(e.args) == 1:
+                g = e.args[0]
+                if isinstance(g, (ast.List, ast.Tuple)):
+                    vals = [self.tv(x, st) for x in g.elts]
+                    if n == 'all':
+                        return False if False in vals else (None if None in vals else True)
+                    return True if True in vals else (None if None in vals else False)
+                if isinstance(g, (ast.GeneratorExp, ast.ListComp)) and len(g.generators) == 1 and not g.generators[0].ifs:
+                    gen = g.generators[0]
+                    t = self.u.ty(gen.iter, st)
+                    if t is not None and t[0] == 'col' and t[2] == 1 and t[1] == {R_} and isinstance(gen.target, ast.Name):
+                        # over the ranges: any(x in r) is "x in some range"; all(x not in r) its negation
+                        el = g.elt
+                        if isinstance(el, ast.Compare) and len(el.ops) == 1 and norm(el.comparators[0]) == gen.target.id:
+                            if n == 'any' and isinstance(el.ops[0], ast.In):
+                                return self.in_r
+                            if n == 'all' and isinstance(el.ops[0], ast.NotIn):
+                                return not self.in_r
+                        self.unknown.append(norm(e)[:60])
+                        return None
+                    st2 = self.u.bind(gen.target, gen.iter, st, g)
+                    typed = [nm for nm in names_in(gen.target) if _Union.get(st2, nm) is not None]
+                    if typed and n == 'all':
+                        # generic test over all constraint slots: the run-id slot decides, the others are assumed to match
+                        return self.tv(g.elt, st2)
+                    if typed:
+                        self.unknown.append(norm(e)[:60])
+                    return None
+                return None
+            # single-expression helper substituted into the condition
+            fn = self.prog.func_of(self.prog.resolve_in(e.func, self.f)) if not isinstance(e.func, ast.Call) else None
+            if fn is not None and self.depth < 2 and fn.module.name.startswith('dawgie.db'):
+                body = [b for b in fn.node.body if not (isinstance(b, ast.Expr) and isinstance(b.value, ast.Constant))]
+                if len(body) == 1 and isinstance(body[0], ast.Return) and body[0].value is not None:
+                    ps = fn.params()
+                    if ps and ps[0] in ('self', 'cls') and not fn.is_staticmethod():
+                        ps = ps[1:]
+                    st2 = frozenset()
+                    for i, a in enumerate(e.args):
+                        if i < len(ps):
+                            t = self.u.ty(a, st)
+                            if t is not None:
+                                st2 = _Union.put(st2, ps[i], t)
+                    for k in e.keywords:
+                        t = self.u.ty(k.value, st)
+                        if t is not None and k.arg:
+                            st2 = _Union.put(st2, k.arg, t)
+                    sub = _Match(self.uc, fn, self.oracle, self.accept, self.depth + 1)
+                    v = sub.tv(body[0].value, st2)
+                    self.unknown += sub.unknown
+                    return v
+            return None
+        return None
+
+    def on_test(self, e, st):
+        v = self.tv(e, st)
+        if v is True:
+            return (st,), ()
+        if v is False:
+            return (), (st,)
+        return (st,), (st,)
+
+    def on_stmt(self, s, st):
+        if isinstance(s, (ast.Assign, ast.AnnAssign)) and s.value is not None:
+            tg = s.targets if isinstance(s, ast.Assign) else [s.target]
+            for t in tg:
+                if isinstance(t, ast.Name):
+                    ty = self.u.ty(s.value, st)
+                    if ty is not None:
+                        st = _Union.put(st, t.id, ty)
+                        continue
+                    v = self.tv(s.value, st) if isinstance(s.value, (ast.BoolOp, ast.Compare, ast.UnaryOp, ast.Call, ast.IfExp)) else None
+                    st = _Union.put(st, t.id, ('bool', v) if v is not None else None)
+                else:
+                    for nm in names_in(t):
+                        st = _Union.put(st, nm, None)
+        return (st,)
+
+    def on_for(self, node, st):
+        return (self.u.bind(node.target, node.iter, st, node),)
+
+    def on_call(self, call, st):
+        if self.accept(call):
+            self.accepted = True
+        return (st,)
+
+
+_ORACLES = [
+    (ig, rg, ii, ir)
+    for ig in (False, True)
+    for rg in (False, True)
+    for ii in (False, True)
+    for ir in (False, True)
+    if (ig or not ii) and (rg or not ir)
+]
+
+
+def _check_union(prog, r, uc, funcs, required):
+    """truth table of every key-selecting loop over the atoms (ids given, ranges given, id in ids, id in a range)"""
+    n_sites = 0
+    for fn in funcs:
+        for node, body, accept in _match_sites(prog, fn):
+            envs = uc.site_states.get(id(node))
+            if not envs:
+                continue
+            # only sites where run-id collections are in scope take part
+            envs = [e for e in envs if any(v is not None and v[0] == 'col' for _k, v in e)]
+            if not envs:
+                continue
+            n_sites += 1
+            r.instance()
+            key = f'{fn.qname}:runid-union'
+            rows, unknown = [], []
+            # one environment: every collection that may hold run-id entries on some path carries its alternatives
+            joined = {}
+            for env in envs:
+                for k, v in env:
+                    if v is not None and v[0] in ('col', 'el'):
+                        joined[k] = _Union.join(joined.get(k), v)
+            for env in [frozenset(joined.items())]:
+                for oc in _ORACLES:
+                    m = _Match(uc, fn, oc, accept)
+                    # loop-invariant flags hoisted out of the site (any_runid = not (rids or ranges)): single assignment,
+                    # evaluated under the oracle in source order
+                    env0 = env
+                    inside = {id(x) for x in ast.walk(node)}
+                    counts = {}
+                    for a_ in fn.own_nodes():
+                        if isinstance(a_, (ast.Assign, ast.AnnAssign, ast.AugAssign)):
+                            for t_ in a_.targets if isinstance(a_, ast.Assign) else [a_.target]:
+                                for nm in names_in(t_):
+                                    counts[nm] = counts.get(nm, 0) + 1
+                    hoisted = [
+                        a_
+                        for a_ in fn.own_nodes()
+                        if isinstance(a_, ast.Assign)
+                        and id(a_) not in inside
+                        and len(a_.targets) == 1
+                        and isinstance(a_.targets[0], ast.Name)
+                        and counts.get(a_.targets[0].id) == 1
+                        and isinstance(a_.value, (ast.BoolOp, ast.UnaryOp, ast.Compare, ast.Call, ast.Name))
+                    ]
+                    for a_ in sorted(hoisted, key=lambda x: (x.lineno, x.col_offset)):
+                        if _Union.get(env, a_.targets[0].id) is None and m.u.ty(a_.value, env) is None:
+                            v_ = m.tv(a_.value, env)
+                            if v_ is not None:
+                                env = _Union.put(env, a_.targets[0].id, ('bool', v_))
+                    m.unknown = []
+                    init, env = env, env0
+                    if isinstance(node, ast.For):
+                        init = m.u.bind(node.target, node.iter, init, node)
+                    else:
+                        init = m.u.bind(node.generators[0].target, node.generators[0].iter, init, node)
+                    m.run(ast.Module(body=body, type_ignores=[]), init)
+                    ig, rg, ii, ir = oc
+                    want = (not ig and not rg) or ii or ir
+                    unknown += m.unknown
+                    if m.accepted != want:
+                        rows.append(
+                            f'ids {"given" if ig else "absent"}, ranges {"given" if rg else "absent"}, id in ids={ii}, '
+                            f'id in a range={ir}: key {"accepted" if m.accepted else "rejected"}, expected {"accepted" if want else "rejected"}'
+                        )
+            rows = sorted(set(rows))
+            r.extra['union_truth_table_rows'] = len(_ORACLES)
+            r.check(
+                not rows,
+                key,
+                where(fn, node),
+                f'{len(_ORACLES)} valuations: a key passes the run-id test iff no run-id constraint is given, or its id is in the id set, or in one of the ranges',
+                'the run-id test of the key filter is not the union of the ids and the ranges: '
+                + '; '.join(rows[:4])
+                + (f' (not understood: {sorted(set(unknown))[:3]})' if unknown else ''),
+            )
+    if required and not n_sites:
+        r.instance()
+        r.fail(
+            f'{required}:runid-union',
+            where(prog.funcs[required]) if required in prog.funcs else '',
+            'no loop or comprehension selecting the primary keys under the run-id collections was recognised; union of ids and ranges not shown',
+        )
+
+
 def _runid_sources(prog, cls_q):
     """methods of a backend that read the scrubbed runids: ``<param>.runids`` or ``k == 'runids'`` over _asdict()"""
     out = []
@@ -2243,6 +2767,13 @@ def _rule1(ctx, rep):
                     r.ok(key, 'use of a run-id entry/collection is consistent with its alternatives', wh)
                 else:
                     r.fail(key, wh, msg)
+            _check_union(
+                prog,
+                r,
+                uc,
+                srcs + [prog.funcs[q] for q in sorted(uc.inlined) if prog.funcs[q] not in srcs],
+                S_IMPL + '._prime_keys' if cq == S_IMPL else None,
+            )
             for (fq, name), node in sorted(uc.collected.items(), key=lambda t: t[0]):
                 fn = prog.funcs[fq]
                 rets = any(isinstance(n, ast.Return) and n.value is not None and name in names_in(n.value) for n in fn.own_nodes())
@@ -2277,10 +2808,7 @@ def _rule1(ctx, rep):
                     'expression are intersected instead of united (two disjoint ranges, or a range and an id, match nothing)'
                     + (f'; not followed: {tf.not_understood}' if tf.not_understood else ''),
                 )
-        r.note(
-            'not claimed: that the shelve match predicate combines the id set and the ranges with "or", and the meaning '
-            'of the sentinel -1 ("latest")'
-        )
+        r.note('not claimed: the meaning of the sentinel -1 ("latest")')
 
 
 # ---------------------------------------------------------------------------
@@ -2310,7 +2838,6 @@ def check(ctx):
         'agreement with concrete database contents',
         'behaviour of the SQL statements inside PostgreSQL',
         'textual parsing of run-id expressions (_divide)',
-        'that the shelve match predicate unites ids and ranges (only: no Range in a membership test, each alternative used)',
     ]
     _rule1(ctx, rep)
     _rule2(ctx, rep)
@@ -2393,4 +2920,33 @@ VARIANTS = [
     V('open tail ends the merge', 'N', _BA, 'SearchFacade._scrub', 'if merged[-1].stop is None:\n                            continue', 'if merged[-1].stop is None:\n                            break', None),
     V('absorption through Range.__contains__', 'N', _BA, 'SearchFacade._scrub', 'r.start <= i < (i + 1 if r.stop is None else r.stop)', 'i in r', None),
     V('sorted() instead of sort()', 'N', _BA, 'SearchFacade._scrub', 'ranges.sort(key=lambda r: r.start)', 'ranges = sorted(ranges, key=lambda x: x.start)', None),
+    # ---- R-C17-1 union of ids and ranges (truth table) / R-C17-5 seeded-style changes
+    V('ids in the generic slot, ranges tested alone (intersection)', 'B', _SH, _PK, "rids.add(rid) rids.discard(-1) else: table = DBI().tables[_table_index(k)] for name in v: subtable = _subset(table, name) subvalues = subtable.values() if subtable else [-1] constraints[_align(k)].update(subvalues) for pk in prime_keys(DBI().tables.prime): runid = pk[_align('runids')] if (rids or ranges) and not ( runid in rids or any(runid in r for r in ranges) ): continue", "constraints[_align(k)].add(rid)\n                constraints[_align(k)].discard(-1)\n            else:\n                table = DBI().tables[_table_index(k)]\n                for name in v:\n                    subtable = _subset(table, name)\n                    subvalues = subtable.values() if subtable else [-1]\n                    constraints[_align(k)].update(subvalues)\n        for pk in prime_keys(DBI().tables.prime):\n            runid = pk[_align('runids')]\n            if ranges and not any(runid in r for r in ranges):\n                continue", 'R-C17-1'),
+    V('run-id test uses and', 'B', _SH, _PK, 'runid in rids or any(runid in r for r in ranges)', 'runid in rids and any(runid in r for r in ranges)', 'R-C17-1'),
+    V('run-id test skipped when only ranges are given', 'B', _SH, _PK, 'if (rids or ranges) and not (', 'if rids and not (', 'R-C17-1'),
+    V('ranges ignored by the key filter', 'B', _SH, _PK, 'runid in rids or any(runid in r for r in ranges)', 'runid in rids or not ranges', 'R-C17-1'),
+    V('union test: De Morgan', 'N', _SH, _PK, 'if (rids or ranges) and not ( runid in rids or any(runid in r for r in ranges) ): continue',
+      'if (rids or ranges) and runid not in rids and all(runid not in r for r in ranges):\n                continue', None),
+    V('union test: nested ifs', 'N', _SH, _PK, 'if (rids or ranges) and not ( runid in rids or any(runid in r for r in ranges) ): continue',
+      'if rids or ranges:\n                if runid not in rids:\n                    if not any(runid in r for r in ranges):\n                        continue', None),
+    V('union test: local flag', 'N', _SH, _PK, 'if (rids or ranges) and not ( runid in rids or any(runid in r for r in ranges) ): continue',
+      'hit = runid in rids or any(runid in r for r in ranges)\n            if (len(rids) > 0 or ranges) and not hit:\n                continue', None),
+    V('union test: single-expression helper', 'N', _SH, _PK, 'if (rids or ranges) and not ( runid in rids or any(runid in r for r in ranges) ): continue if all(not c or e in c for c, e in zip(constraints, pk)): results.add(pk[:keylen]) return sorted(results)',
+      "if not self._runid_ok(runid, rids, ranges):\n                continue\n            if all(not c or e in c for c, e in zip(constraints, pk)):\n                results.add(pk[:keylen])\n        return sorted(results)\n\n    @staticmethod\n    def _runid_ok(runid, rids, ranges):\n        '''the run id expression is a union'''\n        return not (rids or ranges) or runid in rids or any(runid in r for r in ranges)\n", None),
+    V('absorption as a comprehension', 'N', _BA, 'SearchFacade._scrub',
+      'idx = [] for i in indices: if not any( r.start <= i < (i + 1 if r.stop is None else r.stop) for r in ranges ): idx.append(i)',
+      'idx = [i for i in indices if not any(i in r for r in ranges)]', None),
+    V('absorption comprehension with closed end', 'B', _BA, 'SearchFacade._scrub',
+      'idx = [] for i in indices: if not any( r.start <= i < (i + 1 if r.stop is None else r.stop) for r in ranges ): idx.append(i)',
+      'idx = [i for i in indices if not any(r.start <= i <= (i if r.stop is None else r.stop) for r in ranges)]', 'R-C17-5'),
+    V('key filter as a set comprehension', 'N', _SH, _PK,
+      "for pk in prime_keys(DBI().tables.prime): runid = pk[_align('runids')] if (rids or ranges) and not ( runid in rids or any(runid in r for r in ranges) ): continue if all(not c or e in c for c, e in zip(constraints, pk)): results.add(pk[:keylen])",
+      'results = {\n            pk[:keylen]\n            for pk in prime_keys(DBI().tables.prime)\n            if (not (rids or ranges) or pk[0] in rids or any(pk[0] in r for r in ranges))\n            and all(not c or e in c for c, e in zip(constraints, pk))\n        }', None),
+    V('key filter comprehension without the ranges', 'B', _SH, _PK,
+      "for pk in prime_keys(DBI().tables.prime): runid = pk[_align('runids')] if (rids or ranges) and not ( runid in rids or any(runid in r for r in ranges) ): continue if all(not c or e in c for c, e in zip(constraints, pk)): results.add(pk[:keylen])",
+      'results = {\n            pk[:keylen]\n            for pk in prime_keys(DBI().tables.prime)\n            if (not rids or pk[0] in rids)\n            and all(not c or e in c for c, e in zip(constraints, pk))\n        }', 'R-C17-1'),
+    V('decode through an alias of the index group', 'N', _SH, _FI, 'tgt = dissect(DBI().indices.target[pk[1]])[1]', 'idx = DBI().indices\n            tgt = dissect(idx.target[pk[1]])[1]', None),
+    V('decode after unpacking the key', 'N', _SH, _FI, 'tn = dissect(DBI().indices.task[pk[2]])[1]', '_r, _t, taskid, _a, _s = pk\n            tn = dissect(DBI().indices.task[taskid])[1]', None),
+    V('decode after unpacking the key, wrong slot', 'B', _SH, _FI, 'tn = dissect(DBI().indices.task[pk[2]])[1]', '_r, _t, _k, taskid, _s = pk\n            tn = dissect(DBI().indices.task[taskid])[1]', 'R-C17-4'),
+    V('merge: stop guard dropped (nested range truncates)', 'B', _BA, 'SearchFacade._scrub', 'elif r.stop is None or r.stop > merged[-1].stop:', 'else:', 'R-C17-5'),
 ]
